@@ -64,7 +64,7 @@ def rand_vals(rng, n, sparse):
     return out
 
 def gen_inputs(tier, rng):
-    n = 2000 if tier == "thorough" else 220
+    n = 2000 if tier == "thorough" else 180
     styles = ["random", "random", "random", "single", "ring", "full"]
     for i in range(n):
         kh, kw = rng.choice(KS), rng.choice(KS)
